@@ -2,6 +2,8 @@
 from __future__ import annotations
 
 import hashlib
+import json
+import os
 import time
 
 import numpy as np
@@ -31,7 +33,10 @@ RULE = ("schedule cases = operation in {asnumpy, average, average_split, align (
         "per-molecule outputs equal to the reference (1e-6 rel), memoised helper arrays unchanged, Backend default "
         "restored.  shape cases = declared vs computed shapes of construct_dask / loading tasks / construct_landscape "
         "for integer and fractional max_shifts/scale, upsample 1-4, single and multi-template; non-trivial = perturbed "
-        "run with >= 2 threads observed or a shape case with fractional range; distinct by (op, schedule signature)")
+        "run with >= 2 threads observed or a shape case with fractional range; distinct by (op, schedule signature).  "
+        "history cases = six (max_shifts, upsample) landscape calls (pairs sharing int(max_shifts*upsample) or the "
+        "up-sampled shape) made in forward and in reverse order, each order in a fresh interpreter: every landscape "
+        "must be the same in both histories (1e-6)")
 TOLERANCES = {"rel": 1e-6, "reduction_rel": 1e-5}
 MIN_DECIDED = {"quick": 400, "thorough": 8000}
 MAX_JOBS = 8
@@ -64,6 +69,11 @@ def cases(tier, seed):
                     "scale": float(rng.choice([1.0, 0.5, 0.7, 1.3, 2.0])),
                     "upsample": int(rng.integers(1, 5)), "multi": bool(rng.random() < 0.4),
                     "S": int(rng.choice([8, 9, 11])), "iseed": int(rng.integers(0, 2**31)), "cost": 3.0})
+    # history cases (round 7, C10-13): the same landscape calls made in two different orders, each order in a fresh
+    # interpreter - a result must not depend on which landscapes were computed earlier in the process
+    for i in range(3 if tier == "quick" else 40):
+        out.append({"kind": "history", "model": ("ZNCC", "NCC", "PCC")[int(rng.integers(0, 3))],
+                    "S": int(rng.choice([10, 12, 13])), "iseed": int(rng.integers(0, 2**31)), "cost": 6.0})
     return out
 
 
@@ -432,8 +442,90 @@ def _shape_case(case):
                    "lazy slice of the last candidate differs from the computed landscape", None)
 
 
+_HISTORY_CHILD = r"""
+import json, sys
+import numpy as np
+spec = json.load(open(sys.argv[1]))
+import acryo
+from acryo import alignment
+Model = getattr(alignment, spec["model"] + "Alignment")
+rng = np.random.default_rng(spec["iseed"])
+S = spec["S"]
+zz, yy, xx = np.indices((S, S, S), dtype=np.float32)
+c = (S - 1) / 2
+tmpl = np.zeros((S, S, S), np.float32)
+for _ in range(4):
+    mu = c + rng.uniform(-2.5, 2.5, 3)
+    tmpl += np.exp(-((zz - mu[0]) ** 2 + (yy - mu[1]) ** 2 + (xx - mu[2]) ** 2) / (2 * 1.4 ** 2)).astype(np.float32)
+img = np.roll(tmpl, (1, -1, 1), axis=(0, 1, 2)) + rng.normal(0, 0.05, tmpl.shape).astype(np.float32)
+out = {}
+for idx in spec["order"]:
+    ms, up = spec["configs"][idx]
+    out[str(idx)] = np.asarray(Model(tmpl).landscape(img, (ms, ms, ms), upsample=up), dtype=np.float64)
+np.savez(spec["out"], **out)
+print(acryo.__file__)
+"""
+
+# (max_shifts, upsample) pairs chosen so that several share int(max_shifts), int(max_shifts * upsample) or the
+# up-sampled landscape shape while differing in upsample or max_shifts themselves
+_HISTORY_CONFIGS = [(1.2, 5), (1.5, 4), (2.0, 3), (1.0, 6), (3.0, 2), (2.0, 2), (1.0, 4), (1.4, 3), (1.1, 4), (2.4, 5),
+                    (2.0, 6), (1.0, 2), (2.0, 1), (1.0, 1)]
+
+
+def _history_case(case):
+    import subprocess
+    import sys
+    import tempfile
+    import acryo
+
+    p = case.params
+    rng = gen.rng_for(p["iseed"], "c10h")
+    sel = [int(i) for i in rng.choice(len(_HISTORY_CONFIGS), size=6, replace=False)]
+    configs = [_HISTORY_CONFIGS[i] for i in sel]
+    orders = [list(range(6)), list(range(5, -1, -1))]
+    root = os.path.dirname(os.path.dirname(os.path.abspath(acryo.__file__)))
+    env = dict(os.environ)
+    env["PYTHONPATH"] = root
+    res = []
+    with tempfile.TemporaryDirectory(prefix="vcheck-c10h-") as tmp:
+        script = os.path.join(tmp, "child.py")
+        with open(script, "w") as f:
+            f.write(_HISTORY_CHILD)
+        for n, order in enumerate(orders):
+            spec = {"model": p["model"], "iseed": p["iseed"], "S": p["S"], "configs": configs, "order": order,
+                    "out": os.path.join(tmp, f"out{n}.npz")}
+            sp = os.path.join(tmp, f"spec{n}.json")
+            with open(sp, "w") as f:
+                json.dump(spec, f)
+            try:
+                r = subprocess.run([sys.executable, script, sp], capture_output=True, text=True, timeout=600, env=env,
+                                   cwd=tmp)
+            except subprocess.TimeoutExpired:
+                case.count("history_child_timeout")
+                return                                   # watchdog, not a verdict
+            if r.returncode != 0:
+                case.check(False, "landscape raised in a fresh interpreter", None, order=order, configs=configs,
+                           stderr=r.stderr[-600:])
+                return
+            if os.path.dirname(os.path.dirname(r.stdout.strip().splitlines()[-1])) != root:
+                case.count("history_child_wrong_tree")
+                return
+            res.append(dict(np.load(spec["out"])))
+    case.nontrivial(("history", p["model"], p["S"], tuple(sel)))
+    case.count("history_orders", 2)
+    for i, (ms, up) in enumerate(configs):
+        a, b = res[0][str(i)], res[1][str(i)]
+        case.check(a.shape == b.shape and bool(np.allclose(a, b, rtol=1e-6, atol=1e-6)),
+                   "a landscape depends on which landscapes were computed earlier in the process", None,
+                   max_shifts=ms, upsample=up, position_in_orders=(i, 5 - i), model=p["model"],
+                   maxdiff=float(np.max(np.abs(a - b))) if a.shape == b.shape else None,
+                   shapes=(a.shape, b.shape), configs=configs)
+
+
 def run(case):
-    if case.params["kind"] == "sched":
+    if case.params["kind"] == "history":
+        _history_case(case)
+    elif case.params["kind"] == "sched":
         _sched_case(case)
     else:
         _shape_case(case)
